@@ -32,7 +32,7 @@ SLICE_RULE = ("direction A: every state of the TLC builder machine is one case; 
               "and distinct by the hash of its full JSON line (input and result).")
 
 PLANS = {
-    "_trace_of_suite": {"slice": "TraceSlice", "build": "TraceBuild", "codes": "TraceCodes", "reader": "TraceReader", "stats": "TraceStats"},
+    "_trace_of_suite": {"slice": "TraceSlice", "build": "TraceBuild", "codes": "TraceCodes", "reader": "TraceReader", "stats": "TraceStats", "fibex": "TraceFibex"},
     "C01": dict(
         sany=["DltCodec.tla", "mc/MCCodec.tla", "trace/TraceSlice.tla"],
         steps=[
@@ -267,5 +267,37 @@ PLANS = {
                     "into a fresh summary) and compared with the whole. B: collect_statistics over the real reader with a recording collector (each visit = the header decode of the "
                     "corresponding piece of the stream, once each, in order; level / verbose / payload length / storage header) and with the standard collector (= Tally of the visits, "
                     "ECU totals, all merges of a random 3-split = the whole); order-free comparison, no duplicate ids.",
+    ),
+    "C11": dict(
+        sany=["Fibex.tla", "FibexModel.tla", "mc/MCFibex.tla", "trace/TraceFibex.tla"],
+        steps=[
+            mc("fibex", "MCFibex", "MCFibex_quick.cfg", "MCFibex_thorough.cfg", replay=("fibex", "load"), workers=12, timeout={"quick": 600, "thorough": 6000}, heap="16g"),
+            rec("fibex", "models", "TraceFibex", 600, 20000, 2, 8),
+        ],
+        rule="direction A: one case per (abstract model, layout) of the bounded instance; direction B: seeded random abstract models (1-4 PDUs with up to 5 signal instances, 1-3 "
+             "frames, duplicated ids, unknown references, custom signals and codings over the whole vocabulary, multi-digit sequence numbers) rendered with random child / section / "
+             "file order, white space and namespace prefix; every document is non-trivial (>= 1 PDU and >= 1 frame); distinct by the hash of the JSON line",
+        explanation="MC: the loader machine (one read_event per step, shared registers, open-element stack, the three loops, map assembly) run on Render(model, layout) for every "
+                    "abstract model x layout of the instance - quick: 674 models (whole vocabulary: 17 standard names, 17 base types; duplicates, unknown refs, ties, numeric order) "
+                    "x 12 layouts (every child order, instance order, section order and file split occurs); thorough: 11 554 models x 288 layouts: LoadIsIntended (machine result = the declarative Intended(model) written from the statement) and "
+                    "LookupIsIntended (extract_metadata with and without extended header, present / absent ids). A: every rendering printed to XML files, loaded with "
+                    "gather_fibex_data in a child process, compared with Intended(model). B: random larger models rendered by the driver; TLC checks result = Intended(model), the "
+                    "9 lookups, and (sanity of the driver's renderer) that the machine run on the driver's tokens also gives Intended(model).",
+    ),
+    "C12": dict(
+        sany=["Fibex.tla", "FibexModel.tla", "mc/MCFibex.tla", "trace/TraceFibex.tla"],
+        steps=[
+            mc("fibexdamage", "MCFibex", "MCFibexDamage_quick.cfg", "MCFibexDamage_thorough.cfg", replay=("fibex", "damaged"), workers=12, timeout={"quick": 600, "thorough": 6000}, heap="16g"),
+            rec("fibex", "damage", "TraceFibex", 300, 6000, 2, 8),
+        ],
+        rule="direction A: every token-boundary truncation, single token deletion and attribute deletion of every document of the damage instance; direction B: token-level damage, "
+             "byte-level truncation / corruption / deletion of printed documents, the repository's two sample documents truncated at seeded strides, missing / empty / no paths; "
+             "loads run in a child process under a 5 s watchdog; distinct by the hash of the JSON line (byte-level events carry a digest of the file)",
+        explanation="MC: temporal property Terminated ([](started => <>(model or refused))) of the loader machine stepped token by token, under weak fairness, over Damage(Render(model, "
+                    "layout)): every truncation at a token boundary, every single token deletion, every attribute deletion of every document of the instance (quick: 3 952 damaged "
+                    "documents, 43 303 states). With EofRefuses = FALSE (the code as found before its repair) TLC reports the property violated (MCFibexDamage_asfound.cfg). "
+                    "A: every damaged token stream printed and loaded in a child process under a watchdog: a timeout or a panic is a violation (the machine's outcome is compared "
+                    "too and reported as drift, not as a violation). B: damage below the model's abstraction - byte truncation, corruption, deletion - where the oracle is termination "
+                    "without panic only.",
     ),
 }
